@@ -335,15 +335,50 @@ def equivalent_general(kind, comps, rates, order=None):
     return {"compartments": order, "k_matrices": [km], "j": [j[c] for c in order], "exclude": []}
 
 
+#: how the (ascending) time axis of the case is handed to the code: order and memory representation.  The oracle works per
+#: time point, so the rows are simply put back into ascending order before they are compared.
+TIME_REPR = {"order": "ascending", "seed": 0, "view": "plain"}
+TIME_REPRS = st.fixed_dictionaries({"order": st.sampled_from(["ascending", "ascending", "descending", "shuffled"]), "seed": st.integers(0, 10**6),
+                                    "view": st.sampled_from(["plain", "plain", "readonly", "strided"])})
+
+
+def with_time_repr(strategy):
+    return st.tuples(strategy, TIME_REPRS).map(lambda t: {**t[0], "time_repr": t[1]})
+
+
+def use_time_repr(case):
+    TIME_REPR.update(case.get("time_repr") or {"order": "ascending", "seed": 0, "view": "plain"})
+    r = TIME_REPR
+    return [f"time_axis_{r['order']}"] + ([f"time_axis_{r['view']}"] if r["view"] != "plain" else [])
+
+
 def matrix_of(model, params, times, clause):
     from glotaran.model.item import fill_item
 
+    t = np.asarray(times, dtype=float)
+    perm = np.arange(t.size)
+    if TIME_REPR["order"] == "descending":
+        perm = perm[::-1]
+    elif TIME_REPR["order"] == "shuffled":
+        perm = np.random.default_rng([TIME_REPR["seed"], t.size]).permutation(t.size)
+    axis = t[perm].copy()
+    if TIME_REPR["view"] == "readonly":
+        axis.setflags(write=False)
+    elif TIME_REPR["view"] == "strided":
+        big = np.zeros(2 * axis.size)
+        big[::2] = axis
+        axis = big[::2]
     with expect_ok(clause), warnings.catch_warnings(), np.errstate(all="ignore"):
         warnings.simplefilter("ignore")
         dm = fill_item(model.dataset["d1"], model, params)
         mc = dm.megacomplex[0]
-        labels, mat = mc.calculate_matrix(dm, np.array([0.0]), np.asarray(times, dtype=float))
-    return list(labels), np.asarray(mat)
+        labels, mat = mc.calculate_matrix(dm, np.array([0.0]), axis)
+    mat = np.asarray(mat)
+    if mat.ndim >= 2 and mat.shape[-2] == t.size:
+        back = np.empty_like(mat)
+        back[..., perm, :] = mat
+        mat = back
+    return list(labels), mat
 
 
 # ------------------------------------------------------------------------------------------
@@ -476,6 +511,7 @@ def compare_profile(got, labels, ref, clause, what, tol_factor=1.0, rows=None):
 
 
 def prop_decay(case):
+    repr_tags = use_time_repr(case)
     ref = reference(case)
     model, params = decay_spec(case)
     uni = declared_unibranched(ref.comps, ref.entries)
@@ -506,10 +542,11 @@ def prop_decay(case):
     if uni:
         tags.append("declared_unibranched")
     tags.append("nan_parameter_refused" if refused else "nan_parameter_accepted")
-    return {"nontrivial": nontrivial, "tags": tags}
+    return {"nontrivial": nontrivial, "tags": tags + repr_tags}
 
 
 def prop_conservation(case):
+    repr_tags = use_time_repr(case)
     """K without loss channel: sum_i c_i(t) = sum_i j_i for every t (no expm needed)."""
     ref = reference(case, need_profile=False)
     if not ref.closed:
@@ -529,10 +566,11 @@ def prop_conservation(case):
         f"(tol {ref.tol[int(np.argmax(err))] * len(ref.comps):.3e})"))
     check(bool(np.all(got >= -ref.tol[:, None])), clause + "_nonneg", lambda: f"negative population {got.min()!r}")
     tags, nontrivial = structure_tags(case, ref)
-    return {"nontrivial": nontrivial, "tags": tags}
+    return {"nontrivial": nontrivial, "tags": tags + repr_tags}
 
 
 def prop_seqpar(case):
+    repr_tags = use_time_repr(case)
     kind, comps, rates = case["kind"], list(case["compartments"]), [float(r) for r in case["rates"]]
     if kind not in ("sequential", "parallel") or len(comps) != len(rates):
         raise Discard("bad kind")
@@ -557,7 +595,7 @@ def prop_seqpar(case):
     n = len(comps)
     tags = [kind, f"n{n}", "general_same_order" if gen_case["compartments"] == comps else "general_other_order",
             "tol<=1e-9" if ref.tol.max() <= 1e-9 else "tol>1e-9"]
-    return {"nontrivial": bool(n >= 3), "tags": tags}
+    return {"nontrivial": bool(n >= 3), "tags": tags + repr_tags}
 
 
 def prop_reported(case):
@@ -681,11 +719,11 @@ PROPERTY = Property(
         "declaration order); distinct = distinct case digest."
     ),
     subs=[
-        Sub("decay", prop=prop_decay, strategy=lambda: decay_cases(), budget={"quick": 2400, "thorough": 100000},
+        Sub("decay", prop=prop_decay, strategy=lambda: with_time_repr(decay_cases()), budget={"quick": 2400, "thorough": 100000},
             doc="general decay megacomplex matrix vs mpmath exp(Kt) j"),
-        Sub("seqpar", prop=prop_seqpar, strategy=lambda: seqpar_cases(), budget={"quick": 640, "thorough": 30000},
+        Sub("seqpar", prop=prop_seqpar, strategy=lambda: with_time_repr(seqpar_cases()), budget={"quick": 640, "thorough": 30000},
             doc="decay-sequential / decay-parallel vs oracle and vs general decay with the equivalent K, j"),
-        Sub("conservation", prop=prop_conservation, strategy=lambda: decay_cases(closed=True), budget={"quick": 640, "thorough": 30000},
+        Sub("conservation", prop=prop_conservation, strategy=lambda: with_time_repr(decay_cases(closed=True)), budget={"quick": 640, "thorough": 30000},
             doc="closed systems: total population constant"),
         Sub("reported", prop=prop_reported, strategy=lambda: reported_cases(), budget={"quick": 400, "thorough": 12000},
             doc="result of a one-evaluation optimize(): concentrations, A-matrix, rates, lifetimes, DAS, K"),
